@@ -24,6 +24,7 @@ Fixpoint enc_value (v : value) : list Z :=
   | VInt z => [3; z]
   | VStr _ s => 4 :: lenZ s :: s
   | VList l => 5 :: lenZ l :: flat_map enc_value l
+  | VMap kvs => 8 :: lenZ kvs :: flat_map (fun '(k, x) => enc_value k ++ enc_value x) kvs
   | _ => [7]
   end.
 
@@ -63,6 +64,7 @@ Fixpoint count_loads (e : expr) {struct e} : Z :=
     | EConst _ => 1
     | EVar _ => 0
     | EList items => sumZ count_loads items
+    | EMap pairs => sumZ (fun p => count_loads (fst p) + count_loads (snd p)) pairs
     | ENeg a | ENot a | EAttr a _ => count_loads a
     | EBin _ a b | EAnd a b | EOr a b | EItem a b => count_loads a + count_loads b
     | ECmp a rest => count_loads a + sumZ (fun p => count_loads (snd p)) rest
@@ -77,6 +79,7 @@ Fixpoint count_lookups (e : expr) {struct e} : Z :=
   | EConst _ => 0
   | EVar _ => 1
   | EList items => sumZ count_lookups items
+  | EMap pairs => sumZ (fun p => count_lookups (fst p) + count_lookups (snd p)) pairs
   | ENeg a | ENot a | EAttr a _ => count_lookups a
   | EBin _ a b | EAnd a b | EOr a b | EItem a b => count_lookups a + count_lookups b
   | ECmp a rest => count_lookups a + sumZ (fun p => count_lookups (snd p)) rest
@@ -89,6 +92,7 @@ Fixpoint has_call (e : expr) {struct e} : bool :=
   match e with
   | EConst _ | EVar _ => false
   | EList items => existsb has_call items
+  | EMap pairs => existsb (fun p => has_call (fst p) || has_call (snd p)) pairs
   | ENeg a | ENot a | EAttr a _ => has_call a
   | EBin _ a b | EAnd a b | EOr a b | EItem a b => has_call a || has_call b
   | ECmp a rest => has_call a || existsb (fun p => has_call (snd p)) rest
